@@ -246,6 +246,9 @@ func zero(t types.Type) value {
 		}
 		return s
 	case *types.Tuple:
+		if t.Len() == 0 {
+			return nil
+		}
 		if t.Len() == 1 {
 			return zero(t.At(0).Type())
 		}
@@ -1155,6 +1158,9 @@ func widen(x value) value {
 func conv(fr *frame, t_dst, t_src types.Type, x value) value {
 	if sx, ok := x.(sym); ok {
 		if b, ok := t_dst.Underlying().(*types.Basic); ok {
+			if b.Info()&types.IsFloat != 0 {
+				return opaqueFloat{}
+			}
 			return symConv(b.Kind(), sx)
 		}
 		panic(engineAbort{fmt.Sprintf("symbolic conversion %s -> %s", t_src, t_dst)})
@@ -1574,3 +1580,7 @@ func (fr *frame) concIdx(v value) value {
 	}
 	return v
 }
+
+// opaqueFloat is the result of converting a symbolic integer to a float: it can
+// be passed around (telemetry gauges) but any arithmetic on it aborts.
+type opaqueFloat struct{}
